@@ -45,6 +45,7 @@ type PKI struct {
 	ClientServerEKU   gmtls.Certificate // serverAuth only
 	OtherKey          *sm2.PrivateKey
 	Attacker          gmtls.Certificate // self-signed certificate of OtherKey (subject "attacker")
+	ClientEnc         gmtls.Certificate // CA-issued certificate of the client with encipherment usages only
 	SignUntrusted     gmtls.Certificate // sign cert under CA2
 	EncUntrusted      gmtls.Certificate
 	SignExpired       gmtls.Certificate
@@ -153,6 +154,10 @@ func Get() *PKI {
 			t.DNSNames = []string{ServerName}
 		}), p.OtherKey)
 		p.Client = mk(sm2Cert("client", 30, &p.ClientKey.PublicKey, p.CA, p.CAKey, cliT), p.ClientKey)
+		p.ClientEnc = mk(sm2Cert("client", 34, &p.ClientKey.PublicKey, p.CA, p.CAKey, func(t *gx509.Certificate) {
+			cliT(t)
+			t.KeyUsage = gx509.KeyUsageKeyEncipherment | gx509.KeyUsageDataEncipherment
+		}), p.ClientKey)
 		p.ClientUntrusted = mk(sm2Cert("client", 31, &p.ClientKey.PublicKey, p.CA2, p.CA2Key, cliT), p.ClientKey)
 		p.ClientExpired = mk(sm2Cert("client", 32, &p.ClientKey.PublicKey, p.CA, p.CAKey, func(t *gx509.Certificate) {
 			cliT(t)
